@@ -96,6 +96,13 @@ def check_views(case, ctx):
                 obj.weights = list(s["W"])
             W = list(s["W"])
             kinds.add("W")
+        elif op == "set_Pw" and s["W"][0] in (0.75, 3.0):
+            # no new values: the list a getter handed out is assigned back as it is (the three views stay what they were)
+            if i % 2:
+                obj.ctrlptsw = obj.ctrlptsw
+            else:
+                obj.set_ctrlpts(obj.ctrlptsw, *szs)
+            ctx.label("getter-result-assigned-back")
         elif op == "set_Pw":
             obj.ctrlptsw = build.homogeneous(s["P"], s["W"])
             P, W = [list(p) for p in s["P"]], list(s["W"])
